@@ -573,3 +573,64 @@ def run_partialset(ctx, case, J):
              ("a CP core", any(t.cores[n].ndim == 2 for n in range(N))),
              ("mask given", M is not None)]
     J.check("partialset", "partialset(t %s, order=%s, mask=%s, bounds=%s)" % (list(t.shape), order, case["mask"], bounds), thunk, verify, feats)
+
+
+# =============================================================================== correspondence with the Lean model (main session)
+def _corr_cases(rng, tier):
+    n = {"quick": 150, "thorough": 2500, "search": 0}[tier]
+    out = []
+    for _ in range(n):
+        N = rng.choice([1, 2, 2, 3, 3])
+        stream = "int" if rng.random() < 0.6 else "float"
+        shape = [rng.randint(3, 5) for _ in range(N)]
+        out.append({"kind": "corr", "t": gen_tensor(rng, shape, stream=stream).to_json(), "stream": stream, "dd": "float64",
+                    "d": rng.randrange(N), "order": rng.randint(1, 3), "periodic": rng.random() < 0.3,
+                    "bounds": None if rng.random() < 0.5 else [float(rng.randint(-2, 0)), float(rng.randint(1, 4))]})
+    return out
+
+
+_orig_cases = cases
+
+
+def cases(rng, tier):  # noqa: F811
+    return _orig_cases(rng, tier) + _corr_cases(rng, tier)
+
+
+def run_corr(ctx, case, J):
+    from fractions import Fraction
+    from core import parse_tensor, cmp_struct, from_tn, q, safe, close
+    t = PT.from_json(case["t"])
+    d, order, per, bounds = case["d"], case["order"], case["periodic"], case["bounds"]
+    ctx.case(("corr", "partial", t.sig(), d, order, per, bounds is None), t.nontrivial(),
+             {"op": "model correspondence: partial", "t": t.describe(), "dim": d, "order": order, "periodic": per, "bounds": bounds})
+    ctx.count("corr:partial")
+    if not (getattr(ctx, "use_model", False) and not getattr(ctx, "search_only", False)):
+        return
+    I = t.shape[d]
+    b0, b1 = (0, I) if bounds is None else bounds
+    c = Fraction(I + 1) / (Fraction(b1) - Fraction(b0)) / 2          # 1/step, step = (b1-b0)/(I+1)*2
+    r = safe(lambda: tn.partial(t.to_tn(), d, order=order, bounds=bounds, periodic=per))
+    if r[0] == "err":
+        ctx.oracle("partial(dim=%d, order=%d, periodic=%s, bounds=%s) raised %s: %s" % (d, order, per, bounds, r[1], r[2]), case); return
+    toks = ctx.drv().call("partial %d %d %s %d %s" % (d, order, q(c), 1 if per else 0, t.ser()))
+    if toks[0] != "ok":
+        ctx.corr("model partial failed: %s" % " ".join(toks[:4]), case); return
+    m = parse_tensor(toks, 1)[0]
+    dd = cmp_struct(from_tn(r[1]), m, False, rtol=1e-9)
+    if dd is not None:
+        ctx.corr("partial(dim=%d, order=%d, periodic=%s): implementation cores differ from model cores: %s" % (d, order, per, dd), case)
+    # dense stencil oracle for the model
+    x = t.dense()
+    step = float((Fraction(b1) - Fraction(b0)) / (I + 1) * 2)
+    y = x
+    for _ in range(order):
+        if per:
+            y = (np.roll(y, -1, axis=d) - np.roll(y, 1, axis=d)) / step
+        else:
+            first = np.take(y, [0], axis=d); second = np.take(y, [1], axis=d)
+            last = np.take(y, [-1], axis=d); prev = np.take(y, [-2], axis=d)
+            pad = np.concatenate([2 * first - second, y, 2 * last - prev], axis=d)
+            y = (np.take(pad, range(2, I + 2), axis=d) - np.take(pad, range(0, I), axis=d)) / step
+    md = PT([np.asarray(c_, dtype=np.float64) for c_ in m.cores], [None if U is None else np.asarray(U, dtype=np.float64) for U in m.Us]).dense()
+    if not close(md, y, 1e-9)[0]:
+        ctx.spec("model partial differs from the dense stencil", case)
